@@ -5,7 +5,7 @@ from vk.specs import chain as S
 from vk.specs import universe as U
 from vk.specs import dyn as Dn
 from vk.symx import shims as SH
-from vk.symx.harness import decide, decide_true
+from vk.symx.harness import decide, decide_true, native_pair, native_cond
 from vk.symx.poly import Poly, VarFactory
 
 
@@ -47,29 +47,39 @@ def prove(run):
                             "bond_dims_a": list(at.bond_dims), "bond_dims_b": list(bt.bond_dims), "variables": vf.n}
                     tag = f"{name}{n}:q{q}:{ga}{ka}:{gb}{kb}"
                     n_cases += 1
+                    atc, btc = S.complexify(at, rng), S.complexify(bt, rng)
+                    how = ("props.C03_sym: states U.make_state(model, q, 3|2, rng[seed, n, 303, name]) brought to the gauges by vk.specs.chain.apply_gauge, entries multiplied by "
+                           "random phases (vk.specs.chain.complexify); the identity is evaluated on the real float code")
+
+                    def num_replay(op):
+                        if op == "add":
+                            return native_pair(lambda: (S.dense(atc.copy().add(btc.copy())), S.dense(atc) + S.dense(btc)), how)
+                        return native_pair(lambda: (S.dense(atc.copy() - btc.copy()), S.dense(atc) - S.dense(btc)), how)
+
+                    def frame_replay():
+                        x, y = atc.copy(), btc.copy()
+                        vx, vy = S.dense(x), S.dense(y)
+                        x.add(y)
+                        return np.concatenate([S.dense(x), S.dense(y)]), np.concatenate([vx, vy])
                     with SH.symbolic_mode():
                         da, db = S.dense(a), S.dense(b)
-
-                        def num_replay(op):
-                            def f():
-                                r = getattr(at, op)(bt) if op != "sub" else at - bt
-                                ref = S.dense(at) + S.dense(bt) if op != "sub" else S.dense(at) - S.dense(bt)
-                                err = float(np.abs(S.dense(r) - ref).max())
-                                return err > 1e-10, {"numeric_error_on_the_template_values": err}
-                            return f
                         c = a.add(b)
                         decide(run, f"post:MatrixProduct.add:dense_sum@{tag}", "MatrixProduct.add", S.dense(c), da + db, case, num_replay("add"))
                         decide_true(run, f"post:MatrixProduct.add:qn_valid@{tag}", "MatrixProduct.add", not S.qnv_violations(c),
-                                    f"labels invalid: {S.qnv_violations(c)[:1]}", case)
+                                    f"labels invalid: {S.qnv_violations(c)[:1]}", case,
+                                    numeric_replay=native_cond(lambda: (lambda v_: (not v_, v_[:1]))(S.qnv_violations(atc.copy().add(btc.copy()))), how))
                         decide(run, f"frame:MatrixProduct.add:operands@{tag}", "MatrixProduct.add",
-                               np.concatenate([S.dense(a), S.dense(b)]), np.concatenate([da, db]), case)
+                               np.concatenate([S.dense(a), S.dense(b)]), np.concatenate([da, db]), case, native_pair(frame_replay, how))
                         d = a - b
                         decide(run, f"post:MatrixProduct.__sub__:dense_difference@{tag}", "MatrixProduct.__sub__", S.dense(d), da - db, case, num_replay("sub"))
-                        decide(run, f"post:MatrixProduct.dot:overlap@{tag}", "MatrixProduct.dot", a.conj().dot(b), vdot(da, db), case)
+                        decide(run, f"post:MatrixProduct.dot:overlap@{tag}", "MatrixProduct.dot", a.conj().dot(b), vdot(da, db), case,
+                               native_pair(lambda: (atc.conj().dot(btc), np.vdot(S.dense(atc), S.dense(btc))), how))
                         decide(run, f"post:MatrixProduct.conj:dense_conj@{tag}", "MatrixProduct.conj", S.dense(a.conj()),
-                               np.array([Poly.coerce(x).conjugate() for x in da], dtype=object), case)
+                               np.array([Poly.coerce(x).conjugate() for x in da], dtype=object), case,
+                               native_pair(lambda: (S.dense(atc.conj()), S.dense(atc).conj()), how))
                         for val in (0.5, -2.0):
-                            decide(run, f"post:MatrixProduct.scale:dense_scale[{val}]@{tag}", "MatrixProduct.scale", S.dense(a.scale(val)), da * val, case)
+                            decide(run, f"post:MatrixProduct.scale:dense_scale[{val}]@{tag}", "MatrixProduct.scale", S.dense(a.scale(val)), da * val, case,
+                                   native_pair((lambda v_: lambda: (S.dense(atc.scale(v_)), S.dense(atc) * v_))(val), how))
             # operators on symbolic states (numeric operator tensors lifted exactly)
             for ga, ka in gauges:
                 at = S.apply_gauge(a0, ga, ka)
@@ -78,33 +88,48 @@ def prove(run):
                 Hs = SH.numeric_to_symbolic_const(H)
                 case = {"model": name, "nsites": n, "sector": q, "gauge_a": [ga, ka], "terms": [repr(t) for t in terms]}
                 tag = f"{name}{n}:q{q}:{ga}{ka}"
+                atc = S.complexify(at, rng)
+                how = ("props.C03_sym: state U.make_state(model, q, 3, rng[seed, n, 303, name]) in the gauge with random phases (vk.specs.chain.complexify), "
+                       "H = Mpo(model, terms); evaluated on the real float code")
+                Hn = S.dense(H)
                 with SH.symbolic_mode():
                     da = S.dense(a)
                     Hd = S.dense(Hs)
                     r = Hs.apply(a)
-                    decide(run, f"post:Mpo.apply:dense_product@{tag}", "Mpo.apply", S.dense(r), Hd.dot(da), case)
-                    decide_true(run, f"post:Mpo.apply:qn_valid@{tag}", "Mpo.apply", not S.qnv_violations(r), f"{S.qnv_violations(r)[:1]}", case)
-                    decide(run, f"frame:Mpo.apply:operand@{tag}", "Mpo.apply", S.dense(a), da, case)
+                    decide(run, f"post:Mpo.apply:dense_product@{tag}", "Mpo.apply", S.dense(r), Hd.dot(da), case,
+                           native_pair(lambda: (S.dense(H.apply(atc)), Hn @ S.dense(atc)), how))
+                    decide_true(run, f"post:Mpo.apply:qn_valid@{tag}", "Mpo.apply", not S.qnv_violations(r), f"{S.qnv_violations(r)[:1]}", case,
+                                numeric_replay=native_cond(lambda: (lambda v_: (not v_, v_[:1]))(S.qnv_violations(H.apply(atc))), how))
+                    decide(run, f"frame:Mpo.apply:operand@{tag}", "Mpo.apply", S.dense(a), da, case,
+                           native_pair(lambda: (lambda x, vx: (H.apply(x), (S.dense(x), vx))[1])(atc.copy(), S.dense(atc)), how))
                     e = a.expectation(Hs)
                     full = vdot(da, Hd.dot(da))
                     # documented return convention: the real part when the imaginary part vanishes, else the complex value
                     # (the float MPO tensors are Hermitian only up to rounding, so the exact imaginary part may be a ~1e-18 polynomial)
-                    decide(run, f"post:Mps.expectation:sesquilinear_form@{tag}", "Mps.expectation", e, full if full.imag else full.real, case)
+                    decide(run, f"post:Mps.expectation:sesquilinear_form@{tag}", "Mps.expectation", e, full if full.imag else full.real, case,
+                           native_pair(lambda: (atc.expectation(H), np.vdot(S.dense(atc), Hn @ S.dense(atc))), how))
                     if eo:
                         op, ch = eo[0]
                         O = Mpo(model, op)
                         Os = SH.numeric_to_symbolic_const(O)
                         Od = S.dense(Os)
                         r = Os.apply(a)
-                        decide(run, f"post:Mpo.apply:charged_dense_product@{tag}", "Mpo.apply", S.dense(r), Od.dot(da), case)
+                        decide(run, f"post:Mpo.apply:charged_dense_product@{tag}", "Mpo.apply", S.dense(r), Od.dot(da), case,
+                               native_pair(lambda: (S.dense(O.apply(atc)), S.dense(O) @ S.dense(atc)), how))
                         want = np.asarray(q).reshape(-1) + np.asarray(ch)
                         decide_true(run, f"post:Mpo.apply:sector_shift@{tag}", "Mpo.apply",
                                     np.all(np.asarray(r.qntot).reshape(-1) == want) and not S.qnv_violations(r) and np.all(np.asarray(a.qntot).reshape(-1) == np.asarray(q).reshape(-1)),
-                                    f"result sector {r.qntot}, operand sector {a.qntot}, qnv {S.qnv_violations(r)[:1]}", case)
+                                    f"result sector {r.qntot}, operand sector {a.qntot}, qnv {S.qnv_violations(r)[:1]}", case,
+                                    numeric_replay=native_cond(lambda: (lambda x, r_: (bool(np.all(np.asarray(r_.qntot).reshape(-1) == want) and not S.qnv_violations(r_)
+                                                                                        and np.all(np.asarray(x.qntot).reshape(-1) == np.asarray(q).reshape(-1))),
+                                                                                   {"result_sector": np.asarray(r_.qntot).tolist(), "operand_sector_after": np.asarray(x.qntot).tolist()}))(
+                                        *(lambda x: (x, O.apply(x)))(atc.copy())), how))
                         Ot = Os.conj_trans()
                         decide(run, f"post:Mpo.conj_trans:dense_adjoint@{tag}", "Mpo.conj_trans", S.dense(Ot),
-                               np.array([[Poly.coerce(x).conjugate() for x in row] for row in Od.T], dtype=object), case)
-                        decide_true(run, f"post:Mpo.conj_trans:qn_valid@{tag}", "Mpo.conj_trans", not S.qnv_violations(Ot), f"{S.qnv_violations(Ot)[:1]}", case)
+                               np.array([[Poly.coerce(x).conjugate() for x in row] for row in Od.T], dtype=object), case,
+                               native_pair(lambda: (S.dense(O.conj_trans()), S.dense(O).conj().T), how))
+                        decide_true(run, f"post:Mpo.conj_trans:qn_valid@{tag}", "Mpo.conj_trans", not S.qnv_violations(Ot), f"{S.qnv_violations(Ot)[:1]}", case,
+                                    numeric_replay=native_cond(lambda: (lambda v_: (not v_, v_[:1]))(S.qnv_violations(O.conj_trans())), how))
     run.extra["symx"] = {"cases": n_cases, "shims": SH.SHIMS,
                          "shape_universe": "models x sizes x 2 sectors x operand gauges {fresh, canonicalised, centre moved to 0 / n//2}; bond dims <= 3; "
                                            "all tensor entries allowed by the labels are independent complex indeterminates"}
